@@ -94,4 +94,32 @@ def idxL (tbl : List Int) (i : Int) : Res Int :=
 /-- `iN::abs`: panics on `MIN` (`lo`) in the overflow-checked build -/
 def absCk (lo a : Int) : Res Int := if a = lo then .panic else .ok (if a < 0 then -a else a)
 
+/-! ### `Result<T, E>`: `Ok(v)` / `Err(e)`.  (Core's `Except` has no `DecidableEq`.)  `T` first, as in Rust.  The error
+type is the Lean type of the Rust error type: a field-less error enum is its discriminant (`Int`), a unit-like error
+struct (`OutOfRangeError(())`) is `Unit`. -/
+inductive Result (α ε : Type) where
+  | ok (v : α)
+  | err (e : ε)
+  deriving DecidableEq, Repr
+
+namespace Result
+/-- `Result::is_ok` -/
+def isOk {α ε : Type} : Result α ε → Bool
+  | .ok _ => true
+  | .err _ => false
+/-- `Result::is_err` -/
+def isErr {α ε : Type} : Result α ε → Bool
+  | .ok _ => false
+  | .err _ => true
+/-- `Result::ok`: `Ok(v)` ↦ `Some(v)`, `Err(_)` ↦ `None` -/
+def toOption {α ε : Type} : Result α ε → Option α
+  | .ok v => some v
+  | .err _ => none
+/-- `Option::ok_or`: `Some(v)` ↦ `Ok(v)`, `None` ↦ `Err(e)` -/
+def okOr {α ε : Type} (o : Option α) (e : ε) : Result α ε :=
+  match o with
+  | some v => .ok v
+  | none => .err e
+end Result
+
 end Chrono.GenRt
